@@ -459,7 +459,7 @@ pub fn run_check<P: Prop>(prop: P, tier: Tier) -> ! {
             "event_log_entries": a.log_events,
             "faults_fired": faults, "probes": probes, "run_classes": classes, "other_counters": other,
             "distinct_states": a.states.len(),
-            "distinct_states_rule": "hash of the reference-model state (or schedule hash for threaded engines) after each step, capped at 4096 per run",
+            "distinct_states_rule": "hash of the reference-model state after each step (state-machine engines) or hash of the observed interleaving of source pushes and consumer deliveries per schedule (threaded engines), capped at 4096 per run",
             "real_vs_stub": prop.real_vs_stub(),
             "determinism_recheck": {"runs_executed_twice": rechecked, "event_log_hash_mismatches": mismatches.len()},
             "known_findings_replayed": known_report, "violating_runs_suppressed_by_known_findings": a.suppressed_runs,
